@@ -464,10 +464,23 @@ func (g *gen) genBodySwap() {
 	n := g.c.N(110)
 	for i := 0; i < n; i++ {
 		a := g.pick()
+		k := r.Intn(12)
+		if k >= 10 && r.Intn(3) > 0 {
+			// digest / filter alterations: mostly on the blocks that carry a digest
+			var withDigest []*honest
+			for _, x := range g.honest {
+				if x.bf.BTPDigest != nil {
+					withDigest = append(withDigest, x)
+				}
+			}
+			if len(withDigest) > 0 {
+				a = withDigest[r.Intn(len(withDigest))]
+			}
+		}
 		h, b := cpH(a.hf), cpB(a.bf)
 		var what string
 		changed := false
-		switch k := r.Intn(12); k {
+		switch k {
 		case 0, 1: // whole body of another block
 			d := g.pick()
 			b = cpB(d.bf)
@@ -600,6 +613,7 @@ func (g *gen) genHeaderMut() {
 		a := g.pick()
 		h, b := cpH(a.hf), cpB(a.bf)
 		ex := expect{}
+		neutral := false
 		var what string
 		switch k := r.Intn(13); k {
 		case 0:
@@ -648,17 +662,17 @@ func (g *gen) genHeaderMut() {
 			what = "result BTP data"
 		case 11:
 			h.Version = []int{0, 1, 3, -1, 258}[r.Intn(5)]
-			ex.Reject = true
+			neutral = true // no version-%d handler today; acceptance would not contradict the property
 			what = fmt.Sprintf("version %d", h.Version)
 		case 12:
 			h.Proposer = randBytes(r, []int{1, 19, 22, 32}[r.Intn(4)]) // not an address
 			if len(h.Proposer) == 21 {
 				h.Proposer[0] = 2
 			}
-			ex.Reject = true
+			neutral = true
 			what = "proposer malformed"
 		}
-		if !ex.Reject {
+		if !ex.Reject && !neutral {
 			ex.NotID = hx(a.blk.ID())
 			ex.Accept = true
 		}
@@ -710,7 +724,6 @@ func (g *gen) genRawForms() {
 			} else {
 				bi = bi[:2]
 			}
-			ex.Reject = true
 			what = "missing list items"
 		case 4: // non-minimal integer
 			hi[1] = append([]byte{0x80 + byte(len(hi[1])+1), 0}, intPayload(hi[1])...)
@@ -721,7 +734,6 @@ func (g *gen) genRawForms() {
 			what = "nil height or timestamp"
 		case 6: // nil version
 			hi[0] = rlpNil
-			ex.Reject = true
 			what = "nil version"
 		case 7: // version as a list / long string
 			if r.Intn(2) == 0 {
@@ -729,11 +741,9 @@ func (g *gen) genRawForms() {
 			} else {
 				hi[0] = append([]byte{0xB8, 60}, make([]byte, 60)...)
 			}
-			ex.Reject = true
 			what = "version not an integer"
 		case 8: // a field as a list where bytes are expected
 			hi[3+r.Intn(8)] = rlpList(rlpStr([]byte{1, 2}))
-			ex.Reject = true
 			what = "list in a bytes field"
 		case 9: // body transaction element nil / list
 			if r.Intn(2) == 0 {
@@ -741,7 +751,6 @@ func (g *gen) genRawForms() {
 			} else {
 				bi[1] = rlpList(rlpList())
 			}
-			ex.Reject = true
 			what = "malformed transaction element"
 		}
 		ex.Comment = a.label + ": " + what
